@@ -1288,12 +1288,17 @@ fn body(ctx: &Ctx) -> (Summary, Meta) {
         out.sample = Some(Json::str("2- and 3-thread programs on the instrumented build, see mc/c17s/src/main.rs"));
         out
     }));
+    // a search that was stopped by its wall-time share, or a program that was not run, makes the run
+    // as a whole a capped one: the evidence must not call it exhaustive
+    if sum.total.counters.iter().any(|(k, &v)| v > 0 && (k.contains("stopped_by_the_time_cap") || k.contains("not_run(time cap)"))) {
+        sum.capped = true;
+    }
     let _ = (Ix1::default(), Ix3::default(), ArrayD::<f64>::zeros(IxDyn(&[1])));
     let meta = Meta {
-        rule: format!("(0) histories over many interpolators (run alone, so the count is exact): A is asked q, N - 1 further interpolators are built (dropped at once / kept alive), B over another axis is built and asked q, N in {{1,2,3,255,256,257,511,512,65535,65536,65537,131072}}, Linear / CubicSpline / Bilinear, 3 values of q; B must answer bit for bit what a fresh thread gets; (0') for every interpolator kind a fresh OS thread asks 6 ops again from the destructors of two thread-local values (installed before its first query / after a history of 0, 1 or 4 queries) while it shuts down: sequential answers required; (a) Send and Sync are probed for 37 instantiations over owned / view / shared / copy-on-write storage; (b) for each of 8 interpolators every history of at most {depth} operations over a 16-op alphabet (all entry points; knot, interior, other interval, out of range -> Err, NaN -> Err, late failure in a batch, wrongly shaped buffer -> panic, ops on a sibling interpolator with another axis) is executed on a fresh interpolator: every occurrence of an op must return the bits it returns on a fresh interpolator (the Debug fingerprint of the interpolator is recorded after every step; on the current tree it never changes, i.e. the explored state space is a single state with self loops); (c) for each interpolator every ordered pair of a 5-op alphabet as a 2-thread program, plus 3-thread programs (thorough: plus 2x2-op programs), explored by shuttle's exhaustive DFS over all interleavings at the hook scheduling points; every result must equal the sequential answer; the DFS is run twice and the schedule counts compared; (c') the same programs (Linear, CubicSpline, Bilinear, Periodic+extrapolate, and a 70-knot axis) on an *instrumented build* of the current sources in which every std::sync primitive is shuttle's, so that every atomic access and lock operation is a scheduling point as well (every interleaving when the program is small, else every schedule with at most 2 preemptions). Non-trivial: history mixing failing and successful calls / every schedule program."),
+        rule: format!("(0) histories over many interpolators (run alone, so the count is exact): A is asked q, N - 1 further interpolators are built (dropped at once / kept alive), B over another axis is built and asked q, N in {{1,2,3,255,256,257,511,512,65535,65536,65537,131072}}, Linear / CubicSpline / Bilinear, 3 values of q; B must answer bit for bit what a fresh thread gets; (0') for every interpolator kind a fresh OS thread asks 6 ops again from the destructors of two thread-local values (installed before its first query / after a history of 0, 1 or 4 queries) while it shuts down: sequential answers required; (a) Send and Sync are probed for 37 instantiations over owned / view / shared / copy-on-write storage; (b) for each of 8 interpolators every history of at most {depth} operations over a 16-op alphabet (all entry points; knot, interior, other interval, out of range -> Err, NaN -> Err, late failure in a batch, wrongly shaped buffer -> panic, ops on a sibling interpolator with another axis) is executed on a fresh interpolator: every occurrence of an op must return the bits it returns on a fresh interpolator (the Debug fingerprint of the interpolator is recorded after every step; on the current tree it never changes, i.e. the explored state space is a single state with self loops); (c) for each interpolator every ordered pair of a 5-op alphabet as a 2-thread program, plus 3-thread programs (thorough: plus 2x2-op programs), explored by shuttle's exhaustive DFS over all interleavings at the hook scheduling points; every result must equal the sequential answer; the DFS is run twice and the schedule counts compared; (c') the same programs (Linear, CubicSpline, Bilinear, Periodic+extrapolate, and a 70-knot axis) on an *instrumented build* of the current sources in which every std::sync primitive is shuttle's, so that every atomic access and lock operation is a scheduling point as well (every interleaving when the program is small, else every schedule with at most 2 preemptions; std::cell accesses are scheduling points too, thread_local! storage is per simulated thread, scoped threads the crate starts itself are simulated threads; programs with two different out-of-range queries, with 2^15+3-element batches, and with 15 (thorough 7 / 15 / 63) short-lived filler threads between the two threads; each search has a wall-time share, a stopped search makes the run a capped one). A program that fails under shuttle on the normal build is reported only if it also fails when explored with one OS thread per thread (nimc::baton, <= 2 / 3 preemptions). Non-trivial: history mixing failing and successful calls / every schedule program."),
         bounds: format!("{njobs} jobs: 1 Send/Sync table, {} history roots (depth {depth}: {} histories per interpolator), {} schedule programs; tier {}", KINDS.len() * NOPS, (1..=depth).map(|d| NOPS.pow(d as u32)).sum::<usize>(), njobs - 1 - KINDS.len() * NOPS, ctx.tier.name()),
         assumptions: vec![
-            "scheduling points: the hook points (entry, before/after the lookup, inside the lookup, exit, per batch element) and, on the instrumented build, every std::sync atomic / lock operation; plain (non-atomic) shared memory cannot exist in safe code; thread_local! state is not modelled per simulated thread".into(),
+            "scheduling points: the hook points (entry, before/after the lookup, inside the lookup, exit, per batch element) and, on the instrumented build, every std::sync atomic / lock operation; on the normal build the simulated threads of shuttle share the OS thread's thread_local! state, which is why failures there are confirmed on OS threads".into(),
             "shuttle models sequential consistency".into(),
         ],
         extra: vec![
